@@ -22,9 +22,9 @@ def canTstr : GoVal → Bool
   | .str _ => true
   | _ => false
 
+/-- a typed-nil `[]byte` is not a byte string: the encoder would emit `null` for it -/
 def canBstr : GoVal → Bool
   | .bytes _ => true
-  | .bytesNil => true
   | _ => false
 
 /-- `normalizeLabel` (headers.go:677): every Go integer type is converted to `int64`
@@ -37,6 +37,23 @@ def normalizeLabel : GoVal → Option GoVal
   | .int _ v => some (.int .i64 (wrap64 v))
   | .str b => some (.str b)
   | _ => none
+
+/-- `lookupLabel` / `hasLabel`: the entry stored under `label`, whichever Go integer type
+    spells the key (exact key first, else the first key that normalises to the same label). -/
+def lookupLabel (h : GoMap) (label : GoVal) : Option GoVal :=
+  match h.lookup label with
+  | some v => some v
+  | none =>
+    match normalizeLabel label with
+    | none => none
+    | some want =>
+      match h.find? (fun e => match normalizeLabel e.1 with
+                              | some got => got.keyEq want
+                              | none => false) with
+      | some e => some e.2
+      | none => none
+
+def hasLabel (h : GoMap) (label : GoVal) : Bool := (lookupLabel h label).isSome
 
 /-- type/subtype text check used for content type (3) and typ (16) -/
 def countSlash : Bytes → Nat
@@ -54,11 +71,11 @@ def tstrOrUintOK (value : GoVal) : Bool :=
   | .str v => mediaTypeOK v
   | _ => canUint value
 
+/-- a countersignature parameter holds a non-nil `*Countersignature` or a non-empty list of
+    non-nil ones -/
 def isCsigValue : GoVal → Bool
   | .csig .. => true
-  | .csigNil => true
-  | .csigs _ => true
-  | .csigsNil => true
+  | .csigs cs => !cs.isEmpty && cs.all (fun c => match c with | .csig .. => true | _ => false)
   | _ => false
 
 /-- `ensureCritical` (headers.go:215): value must be `[]any`, non-empty, every entry an
@@ -66,7 +83,7 @@ def isCsigValue : GoVal → Bool
 def ensureCritical (value : GoVal) (h : GoMap) : Bool :=
   match value with
   | .arr labels =>
-    !labels.isEmpty && labels.all (fun l => (canInt l || canTstr l) && h.has l)
+    !labels.isEmpty && labels.all (fun l => (canInt l || canTstr l) && hasLabel h l)
   | _ => false
 
 /-- The per-entry checks of `validateHeaderParameters` for normalised label `l`. -/
@@ -77,8 +94,8 @@ def checkParam (h : GoMap) (prot : Bool) (l : GoVal) (value : GoVal) : Bool :=
   | .int _ 16 => tstrOrUintOK value
   | .int _ 3 => tstrOrUintOK value
   | .int _ 4 => canBstr value
-  | .int _ 5 => canBstr value && !hasExact h 6
-  | .int _ 6 => canBstr value && !hasExact h 5
+  | .int _ 5 => canBstr value && !hasLabel h (lbl 6)
+  | .int _ 6 => canBstr value && !hasLabel h (lbl 5)
   | .int _ 7 => !prot && isCsigValue value
   | .int _ 9 => !prot && canBstr value
   | .int _ 11 => !prot && isCsigValue value
@@ -100,7 +117,11 @@ def validateLoop (h : GoMap) (prot : Bool) : GoMap → List GoVal → Bool
 def validateHeaderParameters (h : GoMap) (prot : Bool) : Bool :=
   validateLoop h prot h []
 
-def encCfg : EncCfg := { validate := validateHeaderParameters }
+/-- the cross-bucket IV / Partial IV check (`Headers.ensureIV`) -/
+def ensureIV (p u : GoMap) : Bool :=
+  !((hasLabel p (lbl 5) && hasLabel u (lbl 6)) || (hasLabel p (lbl 6) && hasLabel u (lbl 5)))
+
+def encCfg : EncCfg := { validate := validateHeaderParameters, ensureIV := ensureIV }
 
 /-- `encMode.Marshal` on a model value -/
 def marshalAny (v : GoVal) : Out Bytes :=
@@ -117,9 +138,9 @@ inductive AlgLookup
   | failed (e : Err)
   deriving DecidableEq, Repr
 
-/-- `ProtectedHeader.Algorithm()`: looks up the key `int64(1)` only. -/
+/-- `ProtectedHeader.Algorithm()` -/
 def algorithmOf (h : GoMap) : AlgLookup :=
-  match h.lookup (lbl 1) with
+  match lookupLabel h (lbl 1) with
   | none => .notFound
   | some (.alg a) => .found a
   | some (.int k v) => if k.signed then .found v else .failed .invalidAlg
